@@ -18,8 +18,11 @@ Definition retrieve (s t : nat) (H P : mat nat) : list nat :=
 Definition argmin_first (f : nat -> Q) (v0 : nat) (r : list nat) : nat :=
   fold_left (fun best v => if qltb (f v) (f best) then v else best) r v0.
 
-(* result for one ordered pair: the recorded node list and (pl_bin, pl_wei, pl_dis), None = failed (inf, inf, inf) *)
-Record navres := mknav { nv_path : list nat; nv_len : option (nat * Q * Q) }.
+(* result for one ordered pair: the recorded node list and the three reported lengths pl_bin, pl_wei, pl_dis
+   (None = np.inf), kept as three SEPARATE values as in the code (PL_bin, PL_wei, PL_dis are filled one by one) *)
+Record navres := mknav { nv_path : list nat; nv_bin : option nat; nv_wei : option Q; nv_dis : option Q }.
+(* pl_bin = pl_wei = pl_dis = np.inf; break *)
+Definition nav_failed (path : list nat) : navres := mknav path None None None.
 
 Definition neighbors (n : nat) (L : mat Q) (c : nat) : list nat :=
   filter (fun v => negb (Qeq_bool (L c v) 0)) (seq 0 n).
@@ -27,16 +30,16 @@ Definition neighbors (n : nat) (L : mat Q) (c : nat) : list nat :=
 (* the `while curr_node != target` loop; fuel bounds the number of steps (None = out of fuel) *)
 Fixpoint nav_loop (fuel n : nat) (L D : mat Q) (max_hops : option nat) (target curr last : nat)
   (path : list nat) (pb : nat) (pw pd : Q) : option navres :=
-  if Nat.eqb curr target then Some (mknav path (Some (pb, pw, pd))) else
+  if Nat.eqb curr target then Some (mknav path (Some pb) (Some pw) (Some pd)) else
   match fuel with
   | O => None
   | S f =>
     match neighbors n L curr with
-    | [] => Some (mknav path None)                                       (* dead end *)
+    | [] => Some (nav_failed path)                                       (* dead end *)
     | v0 :: r =>
       let next := argmin_first (fun v => D target v) v0 r in
       if (Nat.eqb next last || match max_hops with Some m => Nat.ltb m pb | None => false end)%bool
-      then Some (mknav path None)                                        (* back-step or pl_bin > max_hops *)
+      then Some (nav_failed path)                                        (* back-step or pl_bin > max_hops *)
       else nav_loop f n L D max_hops target next curr (path ++ [next]) (S pb)
                     (pw + L curr next) (pd + D curr next)
     end
@@ -45,7 +48,8 @@ Fixpoint nav_loop (fuel n : nat) (L D : mat Q) (max_hops : option nat) (target c
 Definition nav_pair (fuel n : nat) (L D : mat Q) (mh : option nat) (i j : nat) : option navres :=
   nav_loop fuel n L D mh j i i [i] 0%nat 0 0.
 
-Definition is_fail (r : navres) : bool := match nv_len r with None => true | Some _ => false end.
+(* inf_ixes = np.where(PL_bin.flat == np.inf): only PL_bin is inspected *)
+Definition is_fail (r : navres) : bool := match nv_bin r with None => true | Some _ => false end.
 
 (* all ordered pairs i <> j in row-major order; sr = 1 - (len(inf_ixes) - n)/(n**2 - n) where inf_ixes
    counts the n diagonal entries plus the failed pairs *)
@@ -64,12 +68,10 @@ Definition run_retrieve (tr : nat) (rows : list (list Q)) (tbl : list (Q * Q)) :
   map (fun c => retrieve (fst c) (snd c) (hops st) (pmat st)) (cells n).
 
 Definition run_nav (fuel : nat) (Lrows Drows : list (list Q)) (mh : option nat)
-  : option (Q * list (list nat * option (nat * (Q * Q)))) :=
+  : option (Q * list (list nat * (option nat * (option Q * option Q)))) :=
   let n := length Lrows in
   match navigation_wu fuel n (of_rows 0 Lrows) (of_rows 0 Drows) mh with
   | None => None
   | Some (sr, rs) =>
-    Some (Qred sr, map (fun r => (nv_path r, match nv_len r with
-                                             | Some (b, w, d) => Some (b, (Qred w, Qred d))
-                                             | None => None end)) rs)
+    Some (Qred sr, map (fun r => (nv_path r, (nv_bin r, (ored (nv_wei r), ored (nv_dis r))))) rs)
   end.
